@@ -16,7 +16,7 @@ import numpy as np
 from .. import pool as PL
 from .. import poolreg as R
 from .. import stream as S
-from ..core import blit, err_class, listlit, natlit, pmap
+from ..core import with_timeout, blit, err_class, listlit, natlit, pmap
 from ..translate import rng as TR
 
 
@@ -269,8 +269,123 @@ def run(ctx):
             if outs[0] != outs[1] or outs[0] != outs[2]:
                 ctx.violation(name, "global_rng_dependence" if outs[0] == outs[1] else "twins_differ", "fit/predict differs", {"X": X.tolist(), "y": [None if np.isnan(v) else v for v in y], "seed": seed},
                               what=f"{name}: fit/predict is not a deterministic function of random_state and data")
+    multi_annotator(ctx, rng)
+    regressors(ctx, rng)
     ctx.sample({"static_sites": ctx.extra["rng_sites"]})
     ctx.extra["exhaustive"] = False
+
+
+def _thrice(make_and_run):
+    """fresh twin under np.random.seed(1), again under seed(1), under seed(2) and seed(3)"""
+    outs = []
+    for g in (1, 1, 2, 3):
+        np.random.seed(g)
+        outs.append(make_and_run())
+    return outs
+
+
+def _same(a, b):
+    return len(a) == len(b) and all(np.array_equal(np.asarray(x, dtype=float), np.asarray(y, dtype=float), equal_nan=True) for x, y in zip(a, b))
+
+
+def multi_annotator(ctx, rng):
+    """multi-annotator pool strategies and classifiers, and the vote aggregation they share: annotators that disagree
+    (tied votes) and cold starts, so that every tie-break is exercised"""
+    from skactiveml.classifier import ParzenWindowClassifier
+    from skactiveml.classifier.multiannotator import AnnotatorEnsembleClassifier, AnnotatorLogisticRegression
+    from skactiveml.pool import RandomSampling, UncertaintySampling
+    from skactiveml.pool.multiannotator import IntervalEstimationThreshold, SingleAnnotatorWrapper
+    from skactiveml.utils import majority_vote
+    for h in range(6 if ctx.is_quick else 50):
+        n, na = int(rng.integers(6, 11)), int(rng.choice([2, 2, 3, 4]))
+        X = rng.integers(0, 3, size=(n, 2)).astype(float)
+        y = np.tile(rng.integers(0, 2, size=(n, 1)), (1, na)).astype(float)
+        flip = rng.random((n, na)) < 0.5
+        y[flip] = 1 - y[flip]                      # disagreement: tied votes for an even number of annotators
+        y[rng.random((n, na)) < (1.0 if h % 5 == 4 else 0.4)] = np.nan
+        seed = int(rng.integers(0, 1000))
+        bs = int(rng.integers(1, 4))
+        rec = {"X": X.tolist(), "y": [[None if v != v else v for v in r] for r in y], "seed": seed, "batch_size": bs}
+
+        def saw(inner):
+            def go():
+                qs = SingleAnnotatorWrapper(inner(seed), random_state=seed)
+                kw = {"clf": ParzenWindowClassifier(classes=[0, 1], random_state=seed)} if inner is not _rs else {}
+                idx, ut = qs.query(X=X.copy(), y=y.copy(), batch_size=bs, n_annotators_per_sample=int(rng_fixed), return_utilities=True, **kw)
+                return [idx, ut]
+            return go
+        _rs = lambda s: RandomSampling(random_state=s)
+        rng_fixed = int(rng.integers(1, na + 1))
+
+        def iet():
+            qs = IntervalEstimationThreshold(random_state=seed)
+            ens = AnnotatorEnsembleClassifier(estimators=[(f"c{i}", ParzenWindowClassifier(random_state=seed + i)) for i in range(na)], classes=[0, 1], random_state=seed)
+            idx, ut = qs.query(X=X.copy(), y=y.copy(), clf=ens, batch_size=bs, return_utilities=True)
+            return [idx, ut]
+
+        def mv():
+            return [majority_vote(y, classes=[0, 1], random_state=seed)]
+
+        def ens_clf():
+            m = AnnotatorEnsembleClassifier(estimators=[(f"c{i}", ParzenWindowClassifier(random_state=seed + i)) for i in range(na)], classes=[0, 1], voting="hard", random_state=seed)
+            m.fit(X, y)
+            return [m.predict(X), m.predict_proba(X)]
+
+        def alr():
+            m = AnnotatorLogisticRegression(classes=[0, 1], random_state=seed, n_annotators=na)
+            m.fit(X, y)
+            return [m.predict(X), m.predict_proba(X)]
+        for name, fn in (("SingleAnnotatorWrapper[UncertaintySampling]", saw(lambda s: UncertaintySampling(random_state=s))),
+                         ("SingleAnnotatorWrapper[RandomSampling]", saw(_rs)), ("IntervalEstimationThreshold", iet),
+                         ("majority_vote", mv), ("AnnotatorEnsembleClassifier[hard]", ens_clf), ("AnnotatorLogisticRegression", alr)):
+            try:
+                outs = with_timeout(lambda: _thrice(fn), 60)
+            except Exception as e:
+                ctx.hist[f"multi_annotator_exception(not C06):{name}:{err_class(e)}"] += 1
+                continue
+            ctx.count("multi:" + name)
+            ctx.nontriv(("multi", name, seed, X.tobytes(), y.tobytes()))
+            if not _same(outs[0], outs[1]):
+                ctx.violation(name, "twins_differ", "two fresh objects with equal parameters and arguments return different results", dict(rec, component=name),
+                              what=f"{name}: twins with equal integer seeds differ (tied annotator votes / cold start)")
+            elif not (_same(outs[0], outs[2]) and _same(outs[0], outs[3])):
+                ctx.violation(name, "global_rng_dependence", "result changes with np.random.seed", dict(rec, component=name),
+                              what=f"{name}: the result depends on numpy's global generator (tied annotator votes / cold start)")
+
+
+def regressors(ctx, rng):
+    from sklearn.linear_model import LinearRegression
+    from skactiveml.regressor import NICKernelRegressor, SklearnRegressor
+    try:
+        from skactiveml.regressor import NadarayaWatsonRegressor
+    except Exception:
+        NadarayaWatsonRegressor = None
+    mks = [("NICKernelRegressor", lambda s: NICKernelRegressor(random_state=s)), ("SklearnRegressor[Linear]", lambda s: SklearnRegressor(LinearRegression(), random_state=s))]
+    if NadarayaWatsonRegressor is not None:
+        mks.append(("NadarayaWatsonRegressor", lambda s: NadarayaWatsonRegressor(random_state=s)))
+    for name, mk in mks:
+        for h in range(3 if ctx.is_quick else 20):
+            n = int(rng.integers(5, 10))
+            X = rng.integers(0, 3, size=(n, 2)).astype(float)
+            y = np.round(rng.normal(size=n), 1)
+            y[rng.random(n) < (1.0 if h % 3 == 2 else 0.4)] = np.nan
+            seed = int(rng.integers(0, 100))
+
+            def go():
+                m = mk(seed).fit(X, y)
+                out = [m.predict(X)]
+                if hasattr(m, "sample_y"):
+                    out.append(m.sample_y(X, n_samples=3, random_state=seed))
+                return out
+            try:
+                outs = _thrice(go)
+            except Exception as e:
+                ctx.hist[f"regressor_exception(not C06):{name}:{err_class(e)}"] += 1
+                continue
+            ctx.count("reg:" + name)
+            if not (_same(outs[0], outs[1]) and _same(outs[0], outs[2]) and _same(outs[0], outs[3])):
+                ctx.violation(name, "global_rng_dependence" if _same(outs[0], outs[1]) else "twins_differ", "fit / predict / sample_y differs",
+                              {"X": X.tolist(), "y": [None if v != v else v for v in y], "seed": seed}, what=f"{name}: fit/predict/sample_y is not a deterministic function of random_state and data")
 
 
 def replay(ctx, path):
